@@ -343,6 +343,8 @@ func (c *XAConn) Commit(ctx context.Context) error {
 	if c.xaResource.XAPrepare(ctx, c.xaBranchXid.String()) != nil {
 		return c.commitErrorHandle(ctx)
 	}
+	// phase one of this branch is over: the connection must be usable for the next branch
+	c.cleanXABranchContext()
 	return nil
 }
 
